@@ -433,6 +433,14 @@ def gen_cases(ctx):
     small = make_info(r, size=None, multi=False, opt=set())
     c = honest_case(ctx, r, info=small, noise_p=0.0, cut="whole", label="honest-keepalive"); c["parts"].insert(1, ("noise:keepalive", KEEPALIVE)); cases.append(c)
     c = honest_case(ctx, r, size=32768, noise_p=0.0, cut="whole", label="honest-keepalive"); c["parts"].insert(3, ("noise:keepalive", KEEPALIVE)); cases.append(c)
+    # ordinary BEP 3 messages far larger than a metadata piece (a bitfield of half a million pieces, a 16 KiB block, a frame
+    # of exactly 65535 / 65536 / 65537 body bytes) must be read and skipped like small ones (added after seeded change C11-9:
+    # the frame length narrowed to 16 bits)
+    for nbody, label in ((65535, "65535"), (65536, "65536"), (65537, "65537"), (100000, "100000"), (16393, "16k-block")):
+        c = honest_case(ctx, r, size=r.choice([None, 16385]), noise_p=0.0, cut=r.choice(["whole", "random"]), label="honest-big-message")
+        big = frame(bytes([5 if label != "16k-block" else 7]) + b"\xff" * (nbody - 1))
+        c["parts"].insert(r.choice([1, 2, len(c["parts"]) - 1]), ("noise:big-" + label, big))
+        cases.append(c)
     sizes = [None, 16383, 16384, 16385, 32768, 49151, 49152, 49153, 100 * 1024]
     for sz in sizes:
         for cut in ("whole", "random"):
@@ -594,7 +602,7 @@ class Tracker:
             pass
 
 
-def e2e_one(ctx, cases, tmp, rng_seed, with_output=True):
+def e2e_one(ctx, cases, tmp, rng_seed, with_output=True, stale_file=False):
     """one `imdl torrent from-link` run; `cases` = the scripted peers the tracker hands out"""
     import random
     rng = random.Random(rng_seed)
@@ -604,13 +612,23 @@ def e2e_one(ctx, cases, tmp, rng_seed, with_output=True):
     target = cases[0]["target"]
     link = "magnet:?xt=urn:btih:%s&tr=udp://127.0.0.1:%d" % (target.hex(), tr.port)
     argv = ["torrent", "from-link", link] + (["--output", "out.torrent"] if with_output else [])
+    stale = None
+    if with_output and stale_file:
+        # something longer than any torrent of this run is already at the output path (an earlier fetch): the new torrent
+        # must replace it completely (added after seeded change C11-8: the output opened without truncation)
+        stale = b"d4:infod6:lengthi1e4:name5:stale12:piece lengthi16384e6:pieces20:" + b"s" * 20 + b"ee" + b"#" * 200000
+        with open(os.path.join(d, "out.torrent"), "wb") as f:
+            f.write(stale)
     rc, out, err = ctx.imdl(argv, cwd=d, timeout=90)
     tr.close()
     files = {}
     for fn in sorted(os.listdir(d)):
         files[fn] = open(os.path.join(d, fn), "rb").read()
     shutil.rmtree(d, ignore_errors=True)
-    return dict(rc=rc, stdout=out, stderr=err, files=files, argv=["imdl"] + argv, expect_name="out.torrent" if with_output else target.hex() + ".torrent")
+    if stale is not None and rc != 0 and files.get("out.torrent") == stale:
+        del files["out.torrent"]          # a failed fetch left the earlier file as it was: nothing was written
+    return dict(rc=rc, stdout=out, stderr=err, files=files, argv=["imdl"] + argv, expect_name="out.torrent" if with_output else target.hex() + ".torrent",
+                stale_before=stale is not None)
 
 
 def judge_e2e(ctx, cases, res):
@@ -629,8 +647,12 @@ def judge_e2e(ctx, cases, res):
             ctx.violation("oracle-failure", "from-link exited 0 but the files written are %s, expected [%s]" % (sorted(written), res["expect_name"]), info); return
         try:
             span = lib.info_span(written[res["expect_name"]])
+            _, end = lib.bdecode_strict(written[res["expect_name"]])
         except Exception as e:
             ctx.violation("oracle-failure", "from-link wrote a file the strict reader rejects: %r" % e, info); return
+        if end != len(written[res["expect_name"]]):
+            ctx.violation("oracle-failure", "from-link exited 0 but the file is a torrent followed by %d further bytes%s (peers [%s])"
+                          % (len(written[res["expect_name"]]) - end, " of the file that was there before" if res.get("stale_before") else "", label), info); return
         if hashlib.sha1(span).digest() != target:
             ctx.violation("oracle-failure", "from-link wrote a torrent whose info dictionary does not hash to the magnet's infohash (peers [%s])" % label, info); return
     honest = [c for c in cases if c["honest"]]
@@ -749,7 +771,7 @@ def run(ctx):
                 rc, out, err = ctx.imdl(argv, cwd=d, timeout=60)
                 tr.close()
                 return dict(rc=rc, stdout=out, stderr=err, files={f: b"" for f in os.listdir(d)}, argv=["imdl"] + argv, expect_name="-")
-            return e2e_one(ctx, cs, tmp, ctx.seed * 7919 + k, with_output=(k % 3 != 0))
+            return e2e_one(ctx, cs, tmp, ctx.seed * 7919 + k, with_output=(k % 3 != 0), stale_file=(k % 3 == 1))
         results = lib.pmap(one, range(len(e2e)), nproc=8)
     finally:
         shutil.rmtree(tmp, ignore_errors=True)
@@ -761,7 +783,7 @@ def run(ctx):
             if dry.violations:                    # same rule as above: replay alone once before reporting
                 tmp2 = tempfile.mkdtemp(prefix="c11-")
                 try:
-                    results[k] = e2e_one(ctx, cs, tmp2, ctx.seed * 7919 + k + 1, with_output=(k % 3 != 0))
+                    results[k] = e2e_one(ctx, cs, tmp2, ctx.seed * 7919 + k + 1, with_output=(k % 3 != 0), stale_file=(k % 3 == 1))
                 finally:
                     shutil.rmtree(tmp2, ignore_errors=True)
                 ctx.count("e2e_replayed_before_reporting")
